@@ -183,7 +183,8 @@ func c02Scenarios(thorough bool) []*Scenario {
 func runMonitorCheck(rc *RunCtx, rep *Report, scs []*Scenario,
 	aux func(prev string, tr Trans, res *StepResult) string,
 	monitor func(sc *Scenario, vf, vt *StoreView, auxBefore string, tr Trans, res *StepResult) (string, string),
-	onState func(sc *Scenario, x *Explorer, s *E1State, cands *candidates)) {
+	onState func(sc *Scenario, x *Explorer, s *E1State, cands *candidates),
+	onTerminal ...func(sc *Scenario, x *Explorer, s *E1State, cands *candidates)) {
 	nums, extra := runSharded(rc, rep, len(scs), func(sh Shard, rep *Report) *ShardResult {
 		out := newShardResult()
 		for i, sc := range scs {
@@ -234,8 +235,18 @@ func runMonitorCheck(rc *RunCtx, rep *Report, scs []*Scenario,
 			if onState != nil {
 				x.Hooks.OnState = func(x *Explorer, s *E1State) { onState(sc, x, s, cands) }
 			}
+			terminals := 0
+			if len(onTerminal) > 0 {
+				x.Hooks.OnExpanded = func(x *Explorer, s *E1State, outN int) {
+					if outN == 0 {
+						terminals++
+						onTerminal[0](sc, x, s, cands)
+					}
+				}
+			}
 			x.Run()
 			cands.resolve(x, rep, sc)
+			out.Numbers["terminal_states"] += int64(terminals)
 			out.Numbers["states"] += int64(x.States)
 			out.Numbers["transitions"] += int64(x.Transitions)
 			out.Numbers["reconcile_calls_tried"] += int64(x.Probes)
